@@ -6,6 +6,7 @@ import (
 	"go/token"
 	"go/types"
 	"sort"
+	"strconv"
 	"strings"
 
 	"golang.org/x/tools/go/ssa"
@@ -174,6 +175,9 @@ func constString(c *ssa.Const) string {
 			return "true"
 		}
 		return "false"
+	case constant.Float:
+		f, _ := constant.Float64Val(c.Value)
+		return strconv.FormatFloat(f, 'g', -1, 64)
 	}
 	return c.Value.ExactString()
 }
